@@ -96,10 +96,10 @@ Proof.
   destruct d; try discriminate. reflexivity.
 Qed.
 
-Lemma wired_string_fuel : forall T f i,
-  is_string T i = true -> string_wired T f i = true -> exists f', f = S f'.
+Lemma wired_string_fuel : forall sn T f i,
+  is_string T i = true -> string_wired sn T f i = true -> exists f', f = S f'.
 Proof.
-  intros T f i _ H. destruct f as [|f']; [discriminate|]. eauto.
+  intros sn T f i _ H. destruct f as [|f']; [discriminate|]. eauto.
 Qed.
 
 Section Proofs.
@@ -108,7 +108,9 @@ Variable native_parse : ustring -> ustring -> bool.
 Variable native_display : ustring -> ustring -> ustring.
 Variable native_ser : ustring -> ustring -> ustring.
 Variable native_fmt_ok : ustring -> bool.
+Variable string_native : ustring -> bool.
 
+Notation string_wired := (string_wired string_native).
 Notation from_str := (from_str re_match native_parse).
 Notation de_str := (de_str re_match native_parse).
 Notation try_from_str := (try_from_str re_match native_parse).
@@ -128,11 +130,11 @@ Proof. intros A p l a H Hin. rewrite forallb_forall in H. auto. Qed.
 Lemma emits_fromstr_has_impl : forall T f t,
   string_wired T f t = true -> emits_fromstr T f t = true -> has_impl T f t TFromStr = true.
 Proof.
-  intros T [|f] t W H; cbn [emits_fromstr has_impl string_wired] in *; try discriminate.
+  intros T [|f] t W H; cbn [emits_fromstr has_impl StrConv.string_wired] in *; try discriminate.
   destruct (get_det T t) as [d|]; try discriminate. destruct d; try discriminate; auto.
   destruct c; try discriminate; auto.
   apply orb_true_iff in H as [H|H].
-  - destruct (wired_string_fuel _ _ _ H W) as [f' ->]. apply is_string_get in H.
+  - destruct (wired_string_fuel _ _ _ _ H W) as [f' ->]. apply is_string_get in H.
     cbn [has_impl]. rewrite H. reflexivity.
   - apply andb_true_iff in H as [H _]. exact H.
 Qed.
@@ -151,7 +153,7 @@ Lemma parse_eq_de_has_impl : forall T f t s,
   from_str T f t s = de_str T f t s.
 Proof.
   intros T f. induction f as [|f IH]; intros t s W F H; [discriminate|].
-  cbn [string_wired wf_conv has_impl StrConv.from_str StrConv.de_str] in *.
+  cbn [StrConv.string_wired wf_conv has_impl StrConv.from_str StrConv.de_str] in *.
   destruct (get_det T t) as [d|] eqn:E; try discriminate.
   destruct d; try discriminate.
   - (* DEnum *)
@@ -188,14 +190,14 @@ Proof.
     destruct c.
     + (* CNone *)
       destruct (is_string T inner) eqn:IS.
-      * destruct (wired_string_fuel _ _ _ IS W) as [f' ->].
+      * destruct (wired_string_fuel _ _ _ _ IS W) as [f' ->].
         rewrite (de_str_string _ _ _ _ IS). reflexivity.
       * rewrite H. rewrite (IH inner s W F H). reflexivity.
     + discriminate.
     + discriminate.
     + (* CString *)
       apply andb_true_iff in W as [IS W].
-      destruct (wired_string_fuel _ _ _ IS W) as [f' ->].
+      destruct (wired_string_fuel _ _ _ _ IS W) as [f' ->].
       rewrite (de_str_string _ _ _ _ IS). reflexivity.
   - (* DNative *)
     rewrite H. cbn [andb]. reflexivity.
@@ -235,12 +237,12 @@ Theorem try_from_inner_eq_de : forall T f t s,
   de_str T f t s = try_from_inner T t s.
 Proof.
   intros T [|f] t s W H; [discriminate|].
-  unfold emits_tryfrom_inner in H. cbn [string_wired StrConv.de_str] in *.
+  unfold emits_tryfrom_inner in H. cbn [StrConv.string_wired StrConv.de_str] in *.
   destruct (get_det T t) as [d|] eqn:E; try discriminate.
   destruct d; try discriminate. destruct c; try discriminate.
-  - apply andb_true_iff in W as [IS W]. destruct (wired_string_fuel _ _ _ IS W) as [f' ->].
+  - apply andb_true_iff in W as [IS W]. destruct (wired_string_fuel _ _ _ _ IS W) as [f' ->].
     rewrite (de_str_string _ _ _ _ IS). reflexivity.
-  - apply andb_true_iff in W as [IS W]. destruct (wired_string_fuel _ _ _ IS W) as [f' ->].
+  - apply andb_true_iff in W as [IS W]. destruct (wired_string_fuel _ _ _ _ IS W) as [f' ->].
     rewrite (de_str_string _ _ _ _ IS). reflexivity.
 Qed.
 
@@ -254,7 +256,7 @@ Lemma display_is_ser_has_impl : forall T f t s x,
   display T f t x = ser_str T f t x /\ ser_str T f t x <> None.
 Proof.
   intros T f. induction f as [|f IH]; intros t s x W F H K Dx; [discriminate|].
-  cbn [string_wired wf_conv has_impl StrConv.display_ok StrConv.de_str StrConv.display StrConv.ser_str] in *.
+  cbn [StrConv.string_wired wf_conv has_impl StrConv.display_ok StrConv.de_str StrConv.display StrConv.ser_str] in *.
   destruct (get_det T t) as [d|] eqn:E; try discriminate.
   destruct d; try discriminate.
   - (* DEnum *)
@@ -297,7 +299,7 @@ Proof.
     + discriminate.
     + (* CString: no Display of its own; through Deref the inner String is printed *)
       apply andb_true_iff in W as [IS W].
-      destruct (wired_string_fuel _ _ _ IS W) as [f' ->].
+      destruct (wired_string_fuel _ _ _ _ IS W) as [f' ->].
       rewrite (de_str_string _ _ _ _ IS) in Dx.
       destruct (check_constrained re_match max min pat s); try discriminate.
       inversion Dx; subst x. apply is_string_get in IS.
